@@ -486,7 +486,19 @@ func (f *Frame) doBinOp(x *ssa.BinOp) {
 	case token.SUB:
 		r = f.wrapIf(Sub(a, b), x.Type(), x.Pos())
 	case token.MUL:
-		r = f.wrapIf(App(SInt, "*", a, b), x.Type(), x.Pos())
+		_, ca := constInt(a)
+		_, cb := constInt(b)
+		if !ca && !cb && a.Sort == SInt {
+			// product of two variables: kept out of the solvers' (incomplete) non-linear arithmetic; only its sign
+			// behaviour is known
+			fn := f.enc.declFun("imul", []Sort{SInt, SInt}, SInt)
+			m := f.enc.define(f.sym("mul"), App(SInt, fn, a, b))
+			f.enc.factAbout(m, And(Implies(And(Le(Zero, a), Le(Zero, b)), Le(Zero, m)), Implies(Or(Eq(a, Zero), Eq(b, Zero)), Eq(m, Zero))))
+			f.enc.assumed["a product of two variables is an uninterpreted value constrained only by its sign (non-negative operands give a non-negative product, a zero operand gives zero)"] = true
+			r = f.wrapIf(m, x.Type(), x.Pos())
+		} else {
+			r = f.wrapIf(App(SInt, "*", a, b), x.Type(), x.Pos())
+		}
 	case token.QUO:
 		f.oblige("panic", "div-by-zero", x.Pos(), Not(Eq(b, Zero)))
 		r = f.wrapIf(tdiv(a, b), x.Type(), x.Pos())
@@ -805,10 +817,36 @@ func (f *Frame) doConvert(x *ssa.Convert) {
 	// string <-> []byte / []rune, pointers, unsafe
 	switch {
 	case v.Sort == SStr && f.p.sortOf(x.Type()) == SSlice:
+		st, _ := x.Type().Underlying().(*types.Slice)
+		isBytes := st != nil && f.p.sortOf(st.Elem()) == SInt
+		if b, ok := st.Elem().Underlying().(*types.Basic); !ok || b.Kind() != types.Uint8 {
+			isBytes = false
+		}
+		if isBytes {
+			// []byte(s): a fresh array holding exactly the bytes of s
+			ref := f.newRef()
+			arr := f.p.sliceArray(st.Elem())
+			as := ArrSort(SInt, ArrSort(SInt, SInt))
+			na := f.enc.declConst(f.enc.fresh(f.sym("strbytes")), ArrSort(SInt, SInt))
+			f.stSet(arr, Store(f.stGet(arr, as), ref, na))
+			if c, ok := x.X.(*ssa.Const); ok && c.Value != nil && c.Value.Kind() == constant.String && len(constant.StringVal(c.Value)) <= 64 {
+				lit := constant.StringVal(c.Value)
+				for i := 0; i < len(lit); i++ {
+					f.enc.factAbout(na, Eq(Select(na, IntLit(int64(i))), IntLit(int64(lit[i]))))
+				}
+				n := IntLit(int64(len(lit)))
+				f.setVal(x, MkSlice(ref, Zero, n, n))
+				return
+			}
+			n := App(SInt, "strlen", v)
+			f.enc.addFact(na.S, fmt.Sprintf("(assert (forall ((i!s Int)) (! (=> (and (<= 0 i!s) (< i!s %s)) (= (select %s i!s) (byteAt %s i!s))) :pattern ((select %s i!s)))))", n.S, na.S, v.S, na.S))
+			f.setVal(x, MkSlice(ref, Zero, n, n))
+			return
+		}
 		r := f.freshVal(x)
 		f.enc.factAbout(r, And(Eq(SLen(r), App(SInt, "strlen", v)), Lt(f.alloc(), SPtr(r))))
 		f.bumpAlloc(SPtr(r))
-		f.enc.assumed["[]byte(string) yields an unconstrained fresh slice of equal length"] = true
+		f.enc.assumed["[]rune(string) yields an unconstrained fresh slice of equal length"] = true
 	case v.Sort == SSlice && f.p.sortOf(x.Type()) == SStr:
 		r := f.freshVal(x)
 		f.enc.factAbout(r, Eq(App(SInt, "strlen", r), SLen(v)))
